@@ -23,6 +23,9 @@ var (
 	removeGEREventSignature = crypto.Keccak256Hash([]byte("UpdateRemovalHashChainValue(bytes32,bytes32)"))
 )
 
+// downloadChunkSize is the maximum number of blocks requested in a single events query
+const downloadChunkSize = uint64(1000)
+
 type downloaderPP struct {
 	*sync.EVMDownloaderImplementation
 	l2GERManager   *globalexitrootmanagerl2sovereignchain.Globalexitrootmanagerl2sovereignchain
@@ -79,6 +82,7 @@ func (d *downloaderPP) RuntimeData(ctx context.Context) (sync.RuntimeData, error
 }
 
 func (d *downloaderPP) Download(ctx context.Context, fromBlock uint64, downloadedCh chan sync.EVMBlock) {
+	lastBlock := uint64(0)
 	for {
 		select {
 		case <-ctx.Done():
@@ -89,11 +93,19 @@ func (d *downloaderPP) Download(ctx context.Context, fromBlock uint64, downloade
 		default:
 		}
 
-		// Wait for new blocks before processing
-		fromBlock = d.WaitForNewBlocks(ctx, fromBlock)
-		for _, block := range d.GetEventsByBlockRange(ctx, fromBlock, fromBlock) {
+		if fromBlock > lastBlock {
+			// Wait for new blocks before processing
+			lastBlock = d.WaitForNewBlocks(ctx, lastBlock)
+			continue
+		}
+
+		// Fetch every block from the first not yet downloaded one up to the last block seen (in bounded chunks),
+		// so GER events of blocks produced between two polls or while the node was down are not skipped.
+		toBlock := min(fromBlock+downloadChunkSize-1, lastBlock)
+		for _, block := range d.GetEventsByBlockRange(ctx, fromBlock, toBlock) {
 			downloadedCh <- *block
 		}
+		fromBlock = toBlock + 1
 	}
 }
 
